@@ -22,7 +22,10 @@ EXPLANATION = (
     "against the reference solver process, which refuses one declaration (a sort outside its logic), so that "
     "add_assertion fails half-way; for 42 call sequences around the failing call every later call (assert, push, "
     "pop, solve, is_sat, get_value, get_model restricted to the symbols of the live assertions) has the outcome "
-    "it has when the failing call is never made, and the command stream stays legal (R5).")
+    "it has when the failing call is never made, and the command stream stays legal (R5).  Tracking solver: the real "
+    "IncrementalTrackingSolver over a probe back-end that refuses one assertion and pushes beyond a depth, 60 call "
+    "sequences: later verdicts, `assertions`, last_command / last_result, the backtrack points and the back-end's own "
+    "stack are as when the refused call is never made (R6).")
 NOT_DECIDED = ["traces inherent to the design (symbols declared by a failing script stay declared; symbols a failed "
                "add_assertion had already declared in the solver process stay declared and show up in later models)",
                "failures injected elsewhere than at handler calls (e.g. inside the walker's own loop)",
@@ -123,6 +126,26 @@ def run(ctx):
             else:
                 rs.unrec("%s (%s): %s" % (name, how, detail[:160]))
         ctx.floor(rs, 16)
+
+    if ctx.want("R6"):
+        rs = ctx.rule("R6", "tracking solver: after a call the back-end refused (an assertion, a push) every later call, the assertion list, the recorded last command / result and both stacks are as when the refused call is never made")
+        from . import solver_deep as sd
+        for seq, kind, got, want in sd.its_failure_results(repo, ctx.tier):
+            tag = " ; ".join(sd.ITS_F_NAMES[x] for x in seq)
+            key = "tracking-solver|%s" % ",".join(seq)
+            if kind != "ok":
+                rs.unrec("%s: %s" % (tag, str(got)[:160]))
+                continue
+            diffs = [(a, b) for a, b in zip(got, want) if a != b]
+            if len(got) != len(want) or diffs:
+                a, b = diffs[0] if diffs else (got[-1], None)
+                what = "outcome" if b is None or a[1] != b[1] else ("assertion list" if a[2] != b[2] else "stack depth")
+                ctx.finding(rs, key, "%s: after the refused call, at '%s' the %s is %r; had the refused call never been made: %r"
+                            % (tag, sd.ITS_F_NAMES.get(a[0], a[0]), what, a[1:] if what != "outcome" else a[1], (b[1:] if what != "outcome" else b[1]) if b else "-"),
+                            "pysmt/solvers/solver.py")
+            else:
+                rs.ok({"calls": tag, "result": "every later call, the assertion list and the stacks as without the refused call"})
+        ctx.floor(rs, 30)
 
     if ctx.want("R5"):
         rs = ctx.rule("R5", "text-interface solver: after a call that failed half-way (a declaration refused by the solver process) every later call has the outcome it has when the failing call is never made")
